@@ -22,7 +22,7 @@ def iterm(x):
 
 
 def s_len(x):
-    if isinstance(x, (FArr, F2, MV, SymBuf)):
+    if isinstance(x, (FArr, F2, MV, SymBuf)) or hasattr(x, "slen"):
         return x.slen()
     return len(x)
 
@@ -159,7 +159,30 @@ class FArr:
         return FArr(self.length, self.fn, self.dt, self.name)
 
     def astype(self, dt, copy=True):
-        return FArr(self.length, self.fn, dt, self.name)
+        to = _dt(dt)
+        fn = self.fn
+        if self.dt in ("f4", "f8") and to not in ("f4", "f8"):
+            def fn(j, f=self.fn):   # float -> integer conversion truncates toward zero
+                t = f(j)
+                if t.sort() == IntS:
+                    return t
+                fl = z3.ToInt(t)
+                return z3.If(z3.Or(t >= 0, z3.ToReal(fl) == t), fl, fl + 1)
+        out = FArr(self.length, fn, to, self.name)
+        if to == self.dt:
+            for a in ("snap", "write_through", "packed_from"):
+                if hasattr(self, a):
+                    setattr(out, a, getattr(self, a))
+        elif getattr(self, "snap", None) is not None:
+            parent = self
+            out.snap = lambda parent=parent: parent.snapshot()
+        return out
+
+    def fill(self, v):
+        c = _valterm(v)
+        if self.dt in ("f4", "f8") and c.sort() == IntS:
+            c = z3.ToReal(c)
+        self.fn = lambda j, c=c: c
 
     def view(self, dt):
         if _dt(dt) == self.dt:
@@ -170,7 +193,11 @@ class FArr:
         f.write_arr(self)
 
     def sum(self):
-        raise Unsupported("FArr.sum")
+        n = z3.simplify(self.length)
+        if not z3.is_int_value(n):
+            raise Unsupported("FArr.sum over a symbolic length")
+        tot = z3.Sum([_r(self.fn(z3.IntVal(i))) for i in range(n.as_long())]) if n.as_long() else z3.RealVal(0)
+        return SReal(tot)
 
     def _binop(self, o, f, inplace=False):
         a = self.fn
@@ -208,6 +235,8 @@ def _r(t):
 
 def _dt(dt):
     import numpy as np
+    if getattr(dt, "_symx_dt", None):
+        return dt._symx_dt
     if isinstance(dt, str) and dt in ("u1", "u2", "f4", "f8", "i4", "i8", "b1"):
         return dt
     if dt is bool or dt == "bool":
@@ -291,6 +320,11 @@ class F2:
         if not (isinstance(k, tuple) and len(k) == 2):
             raise Unsupported("F2 index")
         a, b = k
+        import numpy as _np
+        if isinstance(a, _np.integer):
+            a = int(a)
+        if isinstance(b, _np.integer):
+            b = int(b)
         f = self.fn
         if isinstance(a, slice) and isinstance(b, slice):
             lo, n = _slice_bounds(a, self.rows)
